@@ -5,9 +5,10 @@ from .. import gen, install, loops
 from ..common import DISTANCES, EPS, ORDERS, distance, order, pick, shard_count
 
 META = {
+    'refill': True,      # cases presented in a reused buffer are followed by a refill of that buffer (runner)
     'rule': ('history = rdp_fixed(P, k) for every k in 0..n+1 on one curve x Distance x Order; consecutive members are '
              'checked for exact size min(max(k,2),n), nesting, the gained index being a farthest interior point of its '
-             'segment (noise floor 64*eps*(|coords|max+chord)) and that segment attaining the maximal ordering score '
+             'segment (independent long-double geometry, noise floor 64*eps*(|coords|max+chord)) and that segment attaining the maximal ordering score '
              '(recomputed with the saved primitives on the same slice, ties within 1e-12 relative accepted) among '
              'retained segments with interior points; an online monitor on the _rdp_fixed loop additionally asserts '
              'that the entry about to be popped carries the maximal stored priority. distinct = digest(curve, '
@@ -31,6 +32,20 @@ def priority(mods, pts, a, b, distname, ordname):
     if ordname == 'area':
         return np.sum(dist(seg, seg[0], seg[-1]))
     return install.orig('linear_fit', 'linear_fit_residuals_points')(seg)
+
+
+def geo_dist(seg, kind):
+    """Distance of every point of seg to its chord: closed segment ('shortest') or infinite line ('perpendicular')."""
+    P = np.asarray(seg, dtype=np.longdouble)
+    ab = P[-1] - P[0]
+    ap = P - P[0]
+    L2 = ab[0] * ab[0] + ab[1] * ab[1]
+    if L2 == 0:
+        return np.asarray(np.hypot(ap[:, 0], ap[:, 1]), dtype=float)
+    if kind == 'perpendicular':
+        return np.asarray(np.abs(ab[0] * ap[:, 1] - ab[1] * ap[:, 0]) / np.sqrt(L2), dtype=float)
+    t = np.clip((ap[:, 0] * ab[0] + ap[:, 1] * ab[1]) / L2, 0, 1)
+    return np.asarray(np.hypot(ap[:, 0] - t * ab[0], ap[:, 1] - t * ab[1]), dtype=float)
 
 
 def pop_max_hook(ctxbox):
@@ -91,7 +106,6 @@ def run_chain(ctx, mods, case, pts, dn, on):
     rdp = mods['rdp']
     n = len(pts)
     d, o = distance(mods, dn), order(mods, on)
-    dist = install.orig('linear_fit', 'shortest_distance_points' if dn == 'shortest' else 'perpendicular_distance_points')
     prev = None
     steps_competing = 0
     chain_ok = True
@@ -122,7 +136,7 @@ def run_chain(ctx, mods, case, pts, dn, on):
                 chain_ok = False
                 break
             seg = pts[a:b + 1]
-            dd = np.asarray(dist(seg, seg[0], seg[-1]), dtype=float)
+            dd = geo_dist(seg, dn)       # independent geometry (long double), not the library's distance primitive
             dmax = float(np.max(dd[1:-1]))
             scale = float(np.max(np.abs(seg))) + float(np.hypot(*(np.asarray(seg[-1], float) - np.asarray(seg[0], float))))
             tol = max(64 * EPS * scale, EPS)
